@@ -74,13 +74,23 @@ type Writer struct {
 	FirstErr error
 }
 
-// Tag identifies a message in records: its first data line (harness messages carry a unique tag there) plus "#"+ID.
+// Tag identifies a message in records: its first data line (harness messages carry a unique tag there; a
+// message without data carries it in its first comment line) plus "#"+ID.
 func Tag(m *sse.Message) string {
 	tag := ""
-	for _, line := range strings.Split(m.String(), "\n") {
+	lines := strings.Split(m.String(), "\n")
+	for _, line := range lines {
 		if strings.HasPrefix(line, "data: ") {
 			tag = line[6:]
 			break
+		}
+	}
+	if tag == "" {
+		for _, line := range lines {
+			if strings.HasPrefix(line, ": ") {
+				tag = line[2:]
+				break
+			}
 		}
 	}
 	if m.ID.IsSet() {
@@ -153,6 +163,17 @@ func (w *Writer) Flush() error {
 func Msg(tag string, id string) *sse.Message {
 	m := &sse.Message{}
 	m.AppendData(tag)
+	if id != "" {
+		m.ID = sse.ID(id)
+	}
+	return m
+}
+
+// MsgNoData builds a message without data fields (a checkpoint: ID and a comment carrying the tag). Clients
+// do not dispatch it but they do remember its ID.
+func MsgNoData(tag string, id string) *sse.Message {
+	m := &sse.Message{}
+	m.AppendComment(tag)
 	if id != "" {
 		m.ID = sse.ID(id)
 	}
